@@ -255,6 +255,29 @@ def run(F, tier, res):
         else:
             okt += 1
     res.rule('C19.TARGET', nt, 3, 'absolute_path call sites: the argument derives from the parsed file name, not from a display transformation', discharged=okt)
+    # ---------- COORD: link text and link target are expressed relative to the same directory: if the text shown has been relativised
+    # (pathdiff::diff_paths against the cwd) the path handed to absolute_path - which joins it to that same cwd when relative paths are
+    # in force - must be the relativised one as well, and vice versa
+    def relativised(fn, op):
+        return any(r[0] == 'call' and (r[1].endswith('::diff_paths') or r[1].endswith('::relativize_path_maybe')) for r in F.trace(fn, op, deep=True))
+    nco = okco = 0
+    for G in sorted(F.fn_bodies):
+        links = [(i, c) for i, c in F.calls(G) if callee_of(c) in ffl]
+        abss = [(i, c) for i, c in F.calls(G) if callee_of(c).endswith('utils::path::absolute_path')]
+        if not links or not abss:
+            continue
+        for (i, c) in links:
+            # the absolute_path call whose result is this link's target
+            tgt = [r for r in F.trace(G, c['args'][0], deep=True) if r[0] == 'call' and r[1].endswith('utils::path::absolute_path')]
+            for r in tgt[:1]:
+                nco += 1
+                if relativised(G, r[4]['args'][0]) == relativised(G, c['args'][2]):
+                    okco += 1
+                else:
+                    res.violate('COORD', 'fn=%s' % G, 'the text of a file hyperlink has been made relative to the current directory but its target is resolved from the path '
+                                'relative to the repository root (or the other way round): under --relative-paths the link points at <cwd>/<root-relative path>, a file that does not exist',
+                                where=F.span_of_call(c))
+    res.rule('C19.COORD', nco, 2, 'hyperlink sites: link text and absolute_path argument agree on having been relativised', discharged=okco)
     # ---------- FALLBACK: where a helper returns Option<link> and its caller supplies the text for the no-link case
     # (unwrap_or / unwrap_or_else), link text and fallback text must have gone through the same display transformations
     nfb = okfb = 0
